@@ -39,6 +39,9 @@ def tokens_to_source(toks):
     for t in toks:
         if t.startswith("#int:"):
             out.append(t[5:])
+        elif t.startswith("#float:"):
+            n, e = t[7:].split("/")
+            out.append(repr(int(n) / (1 << int(e))))
         elif t.startswith("#str:"):
             out.append(J.lit_str(t[5:]))
         else:
@@ -53,6 +56,7 @@ def project(node):
         v = node.value
         if isinstance(v, bool): return {"k": "const", "v": J.vbool(v)}
         if isinstance(v, int): return {"k": "const", "v": J.vint(v)}
+        if isinstance(v, float) and J.vfloat(v) is not None: return {"k": "const", "v": J.vfloat(v)}
         if v is None: return {"k": "const", "v": J.VNONE}
         if isinstance(v, str): return {"k": "const", "v": J.vstr(v, "lit")}
         return {"k": "const?", "v": repr(v)}
@@ -158,6 +162,7 @@ def abstract_py(v):
     if isinstance(v, jinja2.Undefined): return {"t": "undef"}
     if isinstance(v, bool): return {"t": "bool", "b": v}
     if isinstance(v, int): return {"t": "int", "n": v}
+    if isinstance(v, float): return J.vfloat(v) or {"t": "?", "repr": repr(v)}
     if v is None: return {"t": "none"}
     if isinstance(v, str): return {"t": "str", "text": str(v), "m": isinstance(v, Markup)}
     if isinstance(v, (list, tuple)): return {"t": "list", "v": [abstract_py(x) for x in v], "tup": isinstance(v, tuple)}
@@ -246,6 +251,7 @@ def value_check(ck, cases, obs):
 def run(ck):
     quick = ck.tier == "quick"
     cases = jgen.expr_cases(ck.seed * 15485863 + 2, 700 if quick else 12000, depth=3 if quick else 4)
+    cases += jgen.expr_cases(ck.seed * 15485863 + 3, 300 if quick else 6000, start_id=len(cases) + 1, depth=3, numeric=True)
     parser_check(ck, cases)
     for bi, batch in enumerate(core.chunks(cases, 3000)):
         obs, r = jrun.spec_results("C02", batch, name=f"b{bi}", timeout=3000)
@@ -254,9 +260,10 @@ def run(ck):
         value_check(ck, batch, obs)
     ck.extra["expressions"] = len(cases)
     ck.exhaustive = False
-    ck.extra["excluded_shapes"] = ["true division / float results", "string and list ordering", "substring `in`",
+    ck.extra["excluded_shapes"] = ["float results outside the exact dyadic rationals n/2^e (e <= 6, |n| <= 30000), negative zero",
+                                   "string and list ordering", "substring `in`",
                                    "unary minus next to ** and ~ next to arithmetic (always parenthesised)",
-                                   "negative exponents", "repr of containers holding strings", "slices", "*args/**kwargs call syntax"]
+                                   "repr of containers holding strings", "slices with a step", "*args/**kwargs call syntax"]
 
 
 def replay(ck, rec):
